@@ -39,6 +39,7 @@ DIVERSITY = {
     "5": "For diversity: change A must live in one of the less obvious areas - openapi_python_client/schema/** (the pydantic models that parse the document), openapi_python_client/utils.py, config.py, cli.py or the project-assembly code in openapi_python_client/__init__.py - or in a shared helper template (templates/property_templates/helpers.jinja, property_macros.py.jinja, endpoint_macros.py.jinja, types.py.jinja, client.py.jinja). Change B must be one whose effect needs at least THREE conditions to hold at once (for example: a particular option AND a particular schema feature AND a particular position or order in the document), or that only shows on the second use of something (state carried over from an earlier schema, operation or command). Avoid the most obvious site for this property.",
     "6": "For diversity: earlier rounds already produced many changes in parser/openapi.py, __init__.py, enum_property.py, utils.py, schemas.py and model_property.py - stay away from those files unless the property cannot be broken elsewhere. Change A should live, if the property can be broken there, in one of the per-type pieces: openapi_python_client/templates/property_templates/*.jinja other than union/list (date, datetime, uuid, file, model, enum, const, float, int, boolean, any ...), templates/client.py.jinja, templates/types.py.jinja, templates/endpoint_init / package-level templates, or openapi_python_client/parser/properties/{protocol,property,date,datetime,float,int,string,uuid,file,none,boolean,any,const,list_property,union}.py. Change B should live, if possible, in openapi_python_client/schema/** other than schema.py (parameter.py, operation.py, path_item.py, media_type.py, response.py, reference.py, data_type.py, parameter_location.py ...), parser/bodies.py, parser/responses.py, parser/errors.py, parser/properties/merge_properties.py, config.py or cli.py, and its effect must need at least TWO conditions at once or state carried over from something processed earlier (an earlier schema, operation, response or command). If neither area can break this property, choose the least obvious site you can find and say so in NOTES.md.",
     "7": "For diversity: many earlier changes were written for this property already (in parser/openapi.py, __init__.py, enum_property.py, utils.py, schemas.py, model_property.py, merge_properties.py, bodies.py, responses.py, list_property.py, union.py, const/int/float/date property files, enum / const / date property templates, literal_enum template, config.py, cli.py, schema/parameter.py) - do something different from the obvious in those places. Change A must be one whose effect shows ONLY WHEN THE GENERATED CLIENT RUNS (the generated package still imports and looks plausible): put it in generated run-time code - templates/types.py.jinja, client.py.jinja, errors.py.jinja, endpoint_module.py.jinja / endpoint_macros.py.jinja, the to_multipart / additional-properties / lazy-import parts of model.py.jinja, or a property template (union, list, file, uuid, datetime, model, any, float, int, boolean, string) - and make it depend on a specific value or combination at run time (for example: only for the asyncio variants, only for a second call on the same client, only for empty / zero / false / very large values, only for a particular status code class, only when two features meet in one model or one operation). Change B must depend on an OPTION or command-line flag (see README.md, Configuration: class_overrides, field_prefix, use_path_prefixes_for_title_model_names, literal_enums, docstrings_on_attributes, generate_all_tags, content_type_overrides, post_hooks, project/package name overrides, --meta, --file-encoding, --custom-template-path, --overwrite, --fail-on-warning) or on the ORDER or NUMBER OF TIMES something is processed (the second use of a component, the second operation under a tag, the second generate into the same directory, a later schema seeing state left by an earlier one). If the property cannot be broken in such a place, pick the least obvious site you can find and say so in NOTES.md.",
+    "8": "For diversity: well over a hundred changes were written for this project already, in nearly every parser file and template - avoid the first idea that comes to mind. Change A must involve an OpenAPI 3.1-specific or rarely used feature of the parser: type lists (type: [a, b]), `prefixItems`, `const`, the null type, `nullable` combined with composition keywords, `additionalProperties` given as true / false / schema, `required` lists naming undeclared properties, `readOnly`, `deprecated`, `example(s)`, parameter `style` / `explode`, `content`-style parameters, path-item level `servers` / `summary` / `description`, `$ref` siblings (description next to $ref), reusable `components/responses|requestBodies|parameters|headers`, `default` / `2XX` response keys, several `security` requirements, `tags` given as empty list. Change B must involve how the document or the configuration reaches the generator or how the result is written: `--url` vs `--path`, content types of the URL response, YAML vs JSON (anchors / merge keys, duplicate keys, non-string keys, tabs), BOMs and encodings, `--config` in YAML vs JSON, unknown configuration keys, `--meta` flavours and their files, `--output-path` given relative / with trailing slash / pointing into a nested missing directory, `--overwrite`, `--fail-on-warning`, post-hook failures, the exit status. If the property cannot be broken in such a place, pick the least obvious site you can find and say so in NOTES.md.",
 }
 
 
